@@ -11,7 +11,7 @@ statement - against the implementation alone.
 """
 import json
 
-STREAMS = ['mkrule', 'match-pairs', 'route-histories', 'client-histories', 'rule-text', 'bus-parse',
+STREAMS = ['mkrule', 'match-pairs', 'route-histories', 'client-histories', 'client-daemon', 'rule-text', 'bus-parse',
            'bus-histories', 'proxy-gate', 'oracle-vs-spec']
 THEOREMS = ['tables_current', 'mtypes_table_is_spec', 'match_eq_spec', 'namespace_is_component_prefix', 'route_exact',
             'route_independent_of_raising', 'invoked_exact_each_once', 'removed_never_invoked', 'ids_never_reused',
@@ -1262,7 +1262,13 @@ def run_client_history(ctx, ops):
                     ckw['arg_path'] = ckw.pop('arg_paths')
                 d = c.addMatch(make_cb(cb, tag), **ckw)
                 sent = [x for x in drain_calls(t)]
-                assert len(sent) == 1 and sent[0][0] == 'AddMatch', sent
+                if len(sent) != 1 or sent[0][0] != 'AddMatch':
+                    # not what the model does (one AddMatch per addMatch): a disagreement; the bookkeeping below
+                    # (calls numbered in the order written) has no meaning for the rest of this history
+                    impl.append('sent %s' % (','.join(str(x[0]) for x in sent) or 'nothing'))
+                    lines.append('cadd %d %s' % (cb, enc_rule(kw)))
+                    ctx.stat('client-histories:addMatch-wrote-%d-calls' % len(sent))
+                    break
                 text = sent[0][1][0]
                 calls.append({'serial': sent[0][2], 'kind': 'add', 'tag': tag, 'answered': False})
                 reg[tag] = {'kw': kw, 'cb': cb, 'text': text, 'state': 'pending-add', 'id': None}
@@ -1414,6 +1420,438 @@ def run_client_history(ctx, ops):
                     ctx.stat('log-err-differs')
                     continue
                 ctx.disagree('client-histories', inp, {'line': lines[i], 'out': a}, {'out': b}, detail='op %d' % (i - 1))
+                break
+
+
+# ------------------------------------------------------------------------------------------ client + SPEC daemon
+BUS_DRIVER = 'org.freedesktop.DBus'
+TEXT_KEY_TO_KW = {'type': 'mtype', 'sender': 'sender', 'interface': 'interface', 'member': 'member', 'path': 'path',
+                  'path_namespace': 'path_namespace', 'destination': 'destination', 'arg0namespace': 'arg0namespace'}
+
+
+def daemon_rule(text):
+    """A rule text as a specification-conforming daemon reads it: (canonical form, constraints as kwargs), or None
+    when the text is not a rule (grammar, unknown key; also one of the closed keys given twice with different
+    values - no message satisfies both, and the generators never produce it).  Two rules are the same rule when
+    they consist of the same constraints - spelling and the order of the items carry no meaning."""
+    if spec_meaning(text) is None:
+        return None
+    kw = {}
+    for k, v in spec_parse_rule(text):
+        if k in TEXT_KEY_TO_KW:
+            if kw.get(TEXT_KEY_TO_KW[k], v) != v:
+                return None
+            kw[TEXT_KEY_TO_KW[k]] = v
+        else:
+            r, dest = k[3:], 'args'
+            if r.endswith('path'):
+                r, dest = r[:-4], 'arg_paths'
+            kw.setdefault(dest, []).append([int(r), v])
+    for k in ('args', 'arg_paths'):
+        if k in kw:
+            kw[k].sort()
+    return json.dumps(kw, sort_keys=True), kw
+
+
+def daemon_matches(kw, mv):
+    """Does the daemon's rule kw select the message?  True / False / None (None: not decided by the statement).  The
+    constraints the property lists are evaluated by `oracle_matches`; `sender` and `arg0namespace`, which only a
+    daemon evaluates, by the words of the DBus specification."""
+    v, _ = oracle_matches({k: x for k, x in kw.items() if k not in ('sender', 'arg0namespace')}, mv)
+    if v is False:
+        return False
+    s = kw.get('sender')
+    if s is not None and mv.get('sender') != s:
+        return False
+    ns = kw.get('arg0namespace')
+    if ns is not None:
+        body = mv['body'] or []
+        if not body or body[0][0] != 'str' or not (body[0][1] == ns or body[0][1].startswith(ns + '.')):
+            return False
+        if body[0][2] not in ('s', None):
+            return None
+    return v
+
+
+class SpecDaemon:
+    """What a message bus daemon does for ONE connection, from the DBus specification alone ("Message Bus Messages"):
+    AddMatch adds the rule - one entry per call, also when the connection already holds the same rule;
+    RemoveMatch removes one instance of the rule and fails with MatchRuleNotFound when the connection holds none;
+    a broadcast signal is delivered to the connection while at least one of its rules matches."""
+
+    def __init__(self):
+        self.rules = []          # (canonical form, kwargs, text as received), a multiset
+
+    def call(self, member, text):
+        """-> None (method return) or the error name."""
+        r = daemon_rule(text) if isinstance(text, str) else None
+        if r is None:
+            return 'org.freedesktop.DBus.Error.MatchRuleInvalid'
+        if member == 'AddMatch':
+            self.rules.append(r + (text,))
+            return None
+        for i, (canon, _, _) in enumerate(self.rules):
+            if canon == r[0]:
+                del self.rules[i]
+                return None
+        return 'org.freedesktop.DBus.Error.MatchRuleNotFound'
+
+    def forwards(self, mv):
+        vs = [daemon_matches(kw, mv) for _, kw, _ in self.rules]
+        if any(v is True for v in vs):
+            return True
+        return None if any(v is None for v in vs) else False
+
+    def held(self):
+        return sorted(c for c, _, _ in self.rules)
+
+
+def daemon_rule_kw(rng, spec):
+    """A rule satisfied by the broadcast signal `spec`, with constraints the statement decides (no sender /
+    arg0namespace / destination, no empty value)."""
+    mv = view(build_message(spec))
+    for _ in range(30):
+        kw = gen_rule_for(rng, mv, p_key=rng.choice([0.15, 0.3, 0.5]), p_miss=0.0)
+        kw = {k: v for k, v in clean_kw(kw).items()
+              if k not in ('sender', 'arg0namespace', 'destination') and v != '' and v != []}
+        if oracle_matches(kw, mv)[0] is True:
+            return kw
+    return {}
+
+
+def gen_daemon_history(rng, n_ops):
+    """A history of the connection and its daemon: addMatch (often with constraints identical to an earlier call),
+    delMatch of a registration, delivery of the daemon's replies (mostly in order, before or after the next
+    operation), broadcast signals; at the end every reply is delivered and one signal satisfying each rule used
+    is broadcast, once more after a further removal."""
+    pool = []
+    for _ in range(rng.choice([1, 2, 2, 3])):
+        spec = gen_msg_spec(rng, 'signal')
+        spec['destination'] = None
+        pool.append((daemon_rule_kw(rng, spec), spec))
+    ops, n_add = [], 0
+
+    def sig(spec):
+        raises = sorted(set(rng.randrange(4) for _ in range(rng.choice([0, 0, 0, 1, 2]))))
+        return ['sig', raises, spec]
+    for _ in range(n_ops):
+        q = rng.random()
+        if q < 0.30 or n_add == 0:
+            kw, _spec = pool[0] if rng.random() < 0.6 else rng.choice(pool)
+            ops.append(['add', rng.randrange(4), kw])
+            n_add += 1
+        elif q < 0.42:
+            ops.append(['del', rng.randrange(4)])
+        elif q < 0.75:
+            ops.append(['deliver', 0 if rng.random() < 0.8 else rng.randrange(4)])
+        else:
+            if rng.random() < 0.8:
+                ops.append(sig(rng.choice(pool)[1]))
+            else:
+                spec = gen_msg_spec(rng, 'signal')
+                spec['destination'] = None
+                ops.append(sig(spec))
+    ops.append(['flush'])
+    ops.extend(['sig', [], spec] for _, spec in pool)
+    if rng.random() < 0.7:
+        ops.append(['del', rng.randrange(4)])
+        ops.append(['flush'])
+        ops.extend(['sig', [], spec] for _, spec in pool)
+    return ops
+
+
+def run_daemon_history(ctx, ops):
+    """One history on a real DBusClientConnection whose transport leads to a SpecDaemon.  Every method call the client
+    writes to the bus driver is handed to the daemon in the order written; the daemon's reply is delivered when the
+    history says so; a broadcast signal reaches the client only when the daemon - holding exactly the rules the
+    client's AddMatch / RemoveMatch calls left it with - forwards it.
+
+    Oracle (implementation only), by registration (tag = order of the addMatch call), judged while settled:
+    `live` = addMatch's Deferred fired with an id, every call it wrote is answered, delMatch not called for it;
+    `removed` = delMatch's Deferred fired and every call it wrote is answered.  For every broadcast signal: a live
+    registration is invoked exactly once iff the signal satisfies its rule - through the daemon, for as long as it
+    is registered; a removed one never.  delMatch is called at most once per registration (a second RemoveMatch for
+    the same text would, by the specification, remove another registration's identical rule)."""
+    from txdbus import message, router
+    spy = LogSpy()
+    saved = swap_log(router, spy)
+    inp = {'stream': 'client-daemon', 'ops': ops}
+    lines, impl = ['dreset'], ['ok']
+    try:
+        c, t = make_connection()
+        daemon = SpecDaemon()
+        outbox = []           # k-th AddMatch/RemoveMatch written: dict(serial, error, delivered, result)
+        reg = {}              # tag -> registration
+        fired, raising = [], set()
+        unusual = [False]
+
+        def make_cb(cb, tag):
+            def f(m):
+                fired.append((tag, cb))
+                if cb in raising:
+                    raise_for(cb)
+            return f
+
+        def take_written():
+            """Hand what the client wrote to the daemon; -> indices of the calls in the outbox, texts."""
+            ks, texts, members = [], [], []
+            for member, body, serial, m0 in drain_calls(t):
+                members.append(member)
+                if getattr(m0, 'destination', None) != BUS_DRIVER or member not in ('AddMatch', 'RemoveMatch') \
+                        or not body or len(body) != 1:
+                    unusual[0] = True
+                    ctx.stat('client-daemon:other-call-written')
+                    continue
+                err = daemon.call(member, body[0])
+                ks.append(len(outbox))
+                texts.append(body[0])
+                outbox.append({'serial': serial, 'error': err, 'delivered': False, 'member': member})
+            return ks, texts, members
+
+        def deliver(k):
+            call = outbox[k]
+            call['delivered'] = True
+            if call['error'] is None:
+                reply = message.MethodReturnMessage(call['serial'], destination=':1.7')
+            else:
+                reply = message.ErrorMessage(call['error'], call['serial'], destination=':1.7', signature='s',
+                                             body=['refused'])
+            c.dataReceived(reply.rawMessage)
+
+        def answered(ks):
+            return all(outbox[k]['delivered'] for k in ks)
+
+        def status(g):
+            if g['add'] is None or not answered(g['add_calls']):
+                return 'pending'
+            if g['add'][0] != 'ok':
+                return 'unsettled'
+            if not g['del_requested']:
+                return 'live'
+            if g['del'] == 'ok' and answered(g['del_calls']):
+                return 'removed'
+            return 'unsettled'
+
+        for op in ops:
+            if op[0] == 'add':
+                _, cb, kw = op
+                tag = len(reg)
+                ckw = call_kw(kw)
+                if 'args' in ckw:
+                    ckw['arg'] = ckw.pop('args')
+                if 'arg_paths' in ckw:
+                    ckw['arg_path'] = ckw.pop('arg_paths')
+                g = {'kw': kw, 'cb': cb, 'add': None, 'id': None, 'add_calls': [], 'texts': [],
+                     'del_requested': False, 'del': None, 'del_calls': []}
+                reg[tag] = g
+                d = c.addMatch(make_cb(cb, tag), **ckw)
+
+                def on_ok(rid, g=g):
+                    g['add'] = ('ok', rid)
+                    g['id'] = rid
+                    g['last'] = 'adddone %s' % (rid,)
+
+                def on_fail(f, g=g):
+                    g['add'] = ('failed',)
+                    g['last'] = 'failed'
+                d.addCallbacks(on_ok, on_fail)
+                ks, texts, members = take_written()
+                g['add_calls'], g['texts'] = ks, texts
+                for k in ks:
+                    outbox[k]['reg'] = (tag, 'add')
+                lines.append('dadd %d %s' % (cb, enc_rule(kw)))
+                if members == ['AddMatch'] and len(ks) == 1:
+                    impl.append('sentadd ' + canon_text(texts[0]))
+                    judge_text(ctx, kw, texts[0])
+                else:
+                    impl.append('sent %s' % (','.join(str(x) for x in members) or 'nothing'))
+                    ctx.stat('client-daemon:addMatch-wrote-%d-calls' % len(members))
+            elif op[0] == 'del':
+                # op[1] picks among the registrations that are live at this moment (by order of registration)
+                live = [x for x in sorted(reg) if status(reg[x]) == 'live' and isinstance(reg[x]['id'], int)]
+                if not live:
+                    ctx.stat('client-daemon:del-skipped(no live registration)')
+                    continue
+                dtag = live[op[1] % len(live)]
+                g = reg[dtag]
+                if sum(1 for x in live if reg[x]['kw'] == g['kw']) > 1:
+                    ctx.stat('client-daemon:del-one-of-several-identical-rules')
+                g['del_requested'] = True
+                lines.append('ddel %d' % g['id'])
+                try:
+                    d = c.delMatch(g['id'])
+                except KeyError:
+                    impl.append('keyerror')
+                    g['del'] = 'failed'
+                    continue
+
+                def on_ok(_, g=g):
+                    g['del'] = 'ok'
+                    g['last'] = 'deldone'
+
+                def on_fail(f, g=g):
+                    g['del'] = 'failed'
+                    g['last'] = 'delfailed' if f.check(KeyError) else 'failed'
+                d.addCallbacks(on_ok, on_fail)
+                ks, texts, members = take_written()
+                g['del_calls'] = ks
+                for k in ks:
+                    outbox[k]['reg'] = (dtag, 'del')
+                if members == ['RemoveMatch'] and len(ks) == 1:
+                    impl.append('sentremove ' + canon_text(texts[0]))
+                    ctx.stat('removematch-text:%s' % ('same-as-addmatch' if texts[:1] == g['texts'][:1] else 'differs'))
+                else:
+                    impl.append('sent %s' % (','.join(str(x) for x in members) or 'nothing'))
+            elif op[0] in ('deliver', 'flush'):
+                waiting = [k for k, call in enumerate(outbox) if not call['delivered']]
+                if op[0] == 'deliver':
+                    if not waiting:
+                        ctx.stat('client-daemon:deliver-skipped(nothing outstanding)')
+                        continue
+                    todo = [waiting[op[1] % len(waiting)]]
+                    ctx.stat('client-daemon:reply-%s' % ('in-order' if todo[0] == waiting[0] else 'out-of-order'))
+                else:
+                    todo = waiting
+                for k in todo:
+                    tag, _what = outbox[k].get('reg', (None, None))
+                    g = reg.get(tag)
+                    if g is not None:
+                        g['last'] = 'ignored'
+                    deliver(k)
+                    lines.append('ddeliver %d' % k)
+                    impl.append(g['last'] if g is not None else 'ignored')
+                    if outbox[k]['error'] is not None:
+                        ctx.stat('client-daemon:error-reply:%s:%s' % (outbox[k]['member'], outbox[k]['error'].rsplit('.', 1)[-1]))
+            else:
+                _, raises, spec = op
+                m = build_message(spec, parse=False)
+                mv = view(build_message(spec))
+                fw = daemon.forwards(mv)
+                if fw is None:
+                    ctx.stat('client-daemon:signal-skipped(undecided rule/signal pair)')
+                    continue
+                raising.clear()
+                raising.update(raises)
+                del fired[:]
+                n0 = spy.n
+                escaped = None
+                if fw:
+                    try:
+                        c.dataReceived(m.rawMessage)
+                    except BaseException as e:
+                        escaped = repr(e)
+                    inv = [(reg[tag]['id'] if isinstance(reg[tag]['id'], int) else -1, cb) for tag, cb in fired]
+                    impl.append(canon_inv('inv=%s log=%d' % (','.join('%d:%d' % ic for ic in inv) or '.', spy.n - n0)
+                                          + (' escaped' if escaped else '')))
+                else:
+                    impl.append('notforwarded')
+                lines.append('dsig %s %s' % (enc_raises(raises), enc_msg(mv)))
+                ctx.impl_trace()
+                ctx.stat('client-daemon:signal-%s' % ('forwarded' if fw else 'not-forwarded'))
+                if escaped:
+                    ctx.violation('exception-escapes-routing', 'an exception raised by a signal callback escapes '
+                                  'dataReceived (%s): the connection is lost and later callbacks are not invoked' % escaped,
+                                  inp=inp, observed=escaped, expected='no exception')
+                    continue
+                expected, judged = set(), set()
+                for tag, g in reg.items():
+                    st = status(g)
+                    if st == 'live':
+                        v, _f = oracle_matches(g['kw'], mv)
+                        if v is None:
+                            continue
+                        judged.add(tag)
+                        if v:
+                            expected.add(tag)
+                    elif st == 'removed':
+                        judged.add(tag)
+                    else:
+                        ctx.stat('client-daemon:registration-in-window-not-judged')
+                got = [tag for tag, _ in fired if tag in judged]
+                bad = None
+                for tag in sorted(set(got)):
+                    if got.count(tag) > 1:
+                        bad = ('invoked-twice', 'registration #%d invoked %d times' % (tag, got.count(tag)))
+                    elif status(reg[tag]) == 'removed':
+                        bad = ('removed-rule-invoked', 'registration #%d (id %s): its removal was acknowledged and it '
+                               'is invoked again' % (tag, reg[tag]['id']))
+                if bad is None and not fw:
+                    # live registrations whose rule the signal satisfies, and the daemon holds no rule selecting the
+                    # signal.  When the text a registration's own AddMatch carried does not select the signal either,
+                    # the text is what is wrong (judged by judge_text: rule-text-differs) - not reported here.
+                    for tag in sorted(expected):
+                        g = reg[tag]
+                        own = [daemon_rule(x) for x in g['texts']]
+                        if own and all(r is None or daemon_matches(r[1], mv) is not True for r in own):
+                            ctx.stat('client-daemon:own-text-does-not-select-the-signal')
+                            continue
+                        same = [x for x, h in reg.items() if x != tag and h['kw'] == g['kw']]
+                        bad = ('live-rule-not-held-by-daemon',
+                               'registration #%d (id %s, rule %r) is registered - addMatch succeeded, delMatch was never '
+                               'called for it - and the broadcast signal satisfies its rule, but the AddMatch / RemoveMatch '
+                               'calls the client wrote leave a specification-conforming daemon (one rule per AddMatch, '
+                               'RemoveMatch removes one) without any rule selecting the signal: it is not forwarded and the '
+                               'callback is not invoked (AddMatch calls written for this registration: %d; other '
+                               'registrations with identical constraints: %r)'
+                               % (tag, g['id'], clean_kw(g['kw']), len(g['add_calls']), same))
+                        break
+                elif bad is None and set(got) != expected:
+                    tag = sorted(set(got) ^ expected)[0]
+                    g = reg[tag]
+                    kw = g['kw']
+                    v, failing = oracle_matches(kw, mv)
+                    bad = explain(kw, build_message(spec), mv, tag in got, v, failing)
+                    if tag not in got and raises:
+                        raising.clear()
+                        del fired[:]
+                        try:
+                            c.dataReceived(m.rawMessage)
+                        except BaseException:
+                            pass
+                        if tag in [t_ for t_, _ in fired]:
+                            bad = ('callback-exception-stops-routing',
+                                   'a raising callback prevented the matching registration #%d from being invoked '
+                                   '(it is invoked when no callback raises)' % tag)
+                if bad is not None:
+                    ctx.violation(bad[0] or 'invoked-set-differs', bad[1] or 'invoked set differs', inp=inp,
+                                  observed={'forwarded by the daemon': bool(fw), 'invoked': sorted(set(got)),
+                                            'rules held by the daemon': [json.loads(x) for x in daemon.held()]},
+                                  expected={'invoked': sorted(expected)})
+                    break
+                ctx.stat('client-daemon:signal-ok')
+        # the daemon's rules against the local registrations (exact mirror: correspondence with the model only)
+        lines.append('dstate')
+        local, pend = [], sum(1 for call in outbox if not call['delivered'])
+        for tag, g in reg.items():
+            if g['add'] is not None and g['add'][0] == 'ok' and not (g['del'] == 'ok'):
+                local.append(canon_text(g['texts'][0]) if g['texts'] else '?')
+        bus = [canon_text(x) for _, _, x in daemon.rules]
+        impl.append('bus=%s local=%s pending=%d' % ('|'.join(sorted(bus)) or '.', '|'.join(sorted(local)) or '.', pend))
+        if pend == 0 and not unusual[0]:
+            ctx.stat('client-daemon:daemon-rules-%s-local-rules' % ('mirror' if sorted(bus) == sorted(local) else 'differ-from'))
+        same_text = len(set(local)) < len(local)
+        if same_text:
+            ctx.stat('client-daemon:history-ends-with-identical-live-rules')
+    finally:
+        restore_log(router, saved)
+    out = ctx.model(lines)
+    ctx.case('client-daemon', sample=inp)
+    if out is not None:
+        for i, (a, b) in enumerate(zip(out, impl)):
+            a = canon_inv(a)
+            if a.startswith('sentadd ') or a.startswith('sentremove '):
+                w, tx = a.split(' ', 1)
+                a = w + ' ' + canon_text(unhx(tx))
+            elif a.startswith('bus='):
+                parts = dict(p.split('=', 1) for p in a.split(' '))
+                cv = lambda s_: '|'.join(sorted(canon_text(unhx(x)) for x in s_.split(';'))) if s_ != '.' else '.'
+                a = 'bus=%s local=%s pending=%s' % (cv(parts['bus']), cv(parts['local']), parts['pending'])
+            if a != b:
+                if a.startswith('inv=') and b.startswith('inv=') and a.split(' ')[0] == b.split(' ')[0] \
+                        and 'escaped' not in b:
+                    ctx.stat('log-err-differs')
+                    continue
+                ctx.disagree('client-daemon', inp, {'line': lines[i], 'out': a}, {'out': b}, detail='op %d' % (i - 1))
                 break
 
 
@@ -1928,6 +2366,24 @@ def run_proxy_scenario(ctx, sc):
     ro = got_ro[0]
     drain_calls(t)
     lines, impl = ['preset'], ['ok']
+    daemon = SpecDaemon()      # the daemon of the DBus specification: one rule per AddMatch, RemoveMatch removes one
+
+    def answer(sent):
+        """Hand the calls the client wrote to the daemon and deliver its replies; -> every reply was a success."""
+        good = True
+        for x in sent:
+            err = None
+            if x[0] in ('AddMatch', 'RemoveMatch') and getattr(x[3], 'destination', None) == BUS_DRIVER \
+                    and x[1] and len(x[1]) == 1:
+                err = daemon.call(x[0], x[1][0])
+            if err is None:
+                c.dataReceived(message.MethodReturnMessage(x[2], destination=':1.7').rawMessage)
+            else:
+                good = False
+                ctx.stat('proxy:daemon-error-reply:%s' % err.rsplit('.', 1)[-1])
+                c.dataReceived(message.ErrorMessage(err, x[2], destination=':1.7', signature='s',
+                                                    body=['refused']).rawMessage)
+        return good
     subs = []          # per subscription: dict(name, requested, got, rid, rule, sel)
     for name, requested in sc['subs']:
         got = []
@@ -1943,11 +2399,18 @@ def run_proxy_scenario(ctx, sc):
         rids = []
         d.addCallback(rids.append)
         sent = drain_calls(t)
-        assert len(sent) == 1 and sent[0][0] == 'AddMatch', sent
+        answer(sent)
+        if len(sent) != 1 or sent[0][0] != 'AddMatch':
+            # not what the model does (one AddMatch per subscription): a disagreement; the subscription is judged by
+            # behaviour only (through the daemon), its rule text is unknown
+            impl.append('sent %s' % (','.join(str(x[0]) for x in sent) or 'nothing'))
+            ctx.stat('proxy:subscription-wrote-%d-calls' % len(sent))
+            sub['rid'] = rids[0] if rids else None
+            sub['state'] = 'live' if rids else 'unjudged'
+            continue
         text = sent[0][1][0]
         parsed = dict(spec_parse_rule(text) or [])
         sub['rule'] = parsed
-        c.dataReceived(message.MethodReturnMessage(sent[0][2], destination=':1.7').rawMessage)
         sub['rid'] = rids[0] if rids else None
         sub['state'] = 'live'
         # the implementation's selection, read off the rule it registered and the gate it applies
@@ -1970,11 +2433,30 @@ def run_proxy_scenario(ctx, sc):
     def fire(spec, where):
         for s_ in subs:
             del s_['got'][:]
-        c.dataReceived(build_message(spec, parse=False).rawMessage)
         mv = view(build_message(spec))
+        # the signal reaches the connection unless the daemon - holding what the connection's AddMatch / RemoveMatch
+        # calls left it with - has no rule selecting it
+        forwarded = daemon.forwards(mv) is not False
+        if forwarded:
+            c.dataReceived(build_message(spec, parse=False).rawMessage)
+        else:
+            ctx.stat('proxy:signal-not-forwarded-by-the-daemon')
         for i, s_ in enumerate(subs):
             calls = [list(x) for x in s_['got']]
-            if s_['state'] == 'none':
+            if s_['state'] in ('none', 'unjudged'):
+                continue
+            if s_['rule'] is None:
+                # no rule text was written for this subscription: judged by behaviour alone
+                if s_['state'] == 'live' and s_['sel'][0] == 'one':
+                    _, ifname, decl = s_['sel']
+                    if spec['path'] == '/a/b' and spec['member'] == s_['name'] and spec['interface'] == ifname \
+                            and (spec['signature'] or '') == (decl or '') and not calls:
+                        ctx.violation('proxy-live-subscription-not-held-by-daemon' if not forwarded
+                                      else 'proxy-matching-signal-not-delivered',
+                                      'subscription %s(%r) of %s is live, the signal is the declared one, the callback is '
+                                      'not called (%s; forwarded by a specification-conforming daemon: %s)'
+                                      % (s_['name'], decl, ifname, where, forwarded),
+                                      inp=sc, observed=calls, expected='called once with the body')
                 continue
             ctx.case('proxy-gate', sample=None)
             ctx.impl_trace()
@@ -2006,7 +2488,9 @@ def run_proxy_scenario(ctx, sc):
                 if not addressed:
                     key = 'proxy-wrong-signal-delivered'
                 elif want and not calls:
-                    key = 'proxy-matching-signal-not-delivered'
+                    # not forwarded: the AddMatch / RemoveMatch calls written so far left the daemon without a rule
+                    # selecting the signal although this subscription is live
+                    key = 'proxy-matching-signal-not-delivered' if forwarded else 'proxy-live-subscription-not-held-by-daemon'
                 elif len(calls) > 1:
                     key = 'invoked-twice'
                 else:
@@ -2031,8 +2515,9 @@ def run_proxy_scenario(ctx, sc):
         sent = drain_calls(t)
         lines.append('pcancel %d' % rid)
         impl.append('del %d' % rid if [x[0] for x in sent] == ['RemoveMatch'] else ('noop' if not sent else 'sent %r' % [x[0] for x in sent]))
-        for x in sent:
-            c.dataReceived(message.MethodReturnMessage(x[2], destination=':1.7').rawMessage)
+        acknowledged = answer(sent)
+        if ci >= 0 and subs[ci]['state'] == 'live' and not acknowledged:
+            subs[ci]['state'] = 'unjudged'         # the daemon refused the removal: the statement demands nothing
         if ci >= 0 and subs[ci]['state'] == 'live':
             # cancelSignalNotification returned and every request it sent is acknowledged: whatever the
             # implementation does (remove locally at once, or on the acknowledgement), the subscription is
@@ -2150,6 +2635,8 @@ def run_corpus_case(ctx, case):
         run_history(ctx, case['ops'])
     elif s == 'client-histories':
         run_client_history(ctx, case['ops'])
+    elif s == 'client-daemon':
+        run_daemon_history(ctx, case['ops'])
     elif s == 'rule-text':
         if 'message' in case:
             stream_pairs(ctx, [(case['rule'], case['message'], True)], 'corpus')
@@ -2257,6 +2744,11 @@ def run(ctx):
     for _ in range(ctx.scale(quick=120, thorough=1200)):
         h_ = gen_client_history(rng, rng.choice([6, 12, 25]))
         if not guarded(ctx, ['client-histories'], lambda: run_client_history(ctx, h_)):
+            break
+
+    for _ in range(ctx.scale(quick=150, thorough=1500)):
+        dh_ = gen_daemon_history(rng, rng.choice([6, 12, 25]))
+        if not guarded(ctx, ['client-daemon'], lambda: run_daemon_history(ctx, dh_)):
             break
 
     rules = [{}]
